@@ -23,6 +23,7 @@ pub mod c17;
 pub mod c18;
 pub mod c19;
 pub mod c20;
+pub mod soup;
 
 use crate::engine::run::Ctx;
 
@@ -51,6 +52,7 @@ pub fn dispatch(id: &str, ctx: &Ctx) -> Option<i32> {
         "C19" => c19::run(ctx),
         "C20" => c20::run(ctx),
         "SELFTEST" => selftest::run(),
+        "SOUP" => soup::dev(ctx),
         "CORPUS" => crate::fuzzapi::gen_corpus(),
         _ => return None,
     })
